@@ -26,7 +26,7 @@ CLAIMED = {
         "text": "Bounded-exhaustive over labelled inputs: quick <=3 object x <=2 species leaves x all 15 arrangements of <=3 families "
                 "(tuples up to family renaming where the menu is closed under renaming, restricted menus in full; inconsistent orders kept) + prescribed root orders; thorough adds <=3x<=3x3 families, "
                 "4x<=3x2 families, 4x<=2x subsequences of abc, each with its coherent cost menu, ext_spfs and base_spfs, ALL and ANY. "
-                "quick also 4-leaf chains on one species x subsequences of abc, 5-leaf chains on one species x {ac, bc, abc, b} with dup = 0, FOUR families (every tuple of subsequences of abcd on 3 leaves; {a, d, abd, acd, abcd} on the three 5-leaf shapes), one family on 4x2 and 4x4 leaves with transfers at 3-6 times the unit price and on 4x3 leaves at the default prices, six loosely constrained families with 120 compatible root orders, prescribed roots with a family no leaf carries, hgt = 0, and session "
+                "quick also 4-leaf chains on one species x subsequences of abc, 5-leaf chains on one species x {ac, bc, abc, b} with dup = 0, FOUR families (every tuple of subsequences of abcd on 3 leaves; {a, d, abd, acd, abcd} on the three 5-leaf shapes), one family on 4x2 and 4x4 leaves with transfers at 3-6 times the unit price and on 4x3 leaves at the default prices, six loosely constrained families with 120 compatible root orders, prescribed roots with a family no leaf carries, hgt = 0, free full losses, full and segmental losses at different prices (also on the 4-leaf comb x 3-leaf species comb over {a, c, bc, abc}), and session "
                 "slices (one input object updated in place, with and without a prescribed root). On about one input in nine the other solvers run on the same input object before the solve, or after it (what was returned must still cost the same). Input presentation varies with the input: leaf "
                 "dictionaries in three orders, syntenies typed as lists / tuples, prefix-related multi-character family names, same-label ancestors. "
                 "Oracle: Bellman over (species, subsequence) for every compatible root order; base: LCA mapping fixed.",
@@ -51,7 +51,7 @@ CLAIMED = {
     "C04": {
         "category": "exploration",
         "text": "Bounded-exhaustive validity check of every object returned by all seven algorithms under both policies on the P-, O-, U-slices "
-                "(incl. 5-leaf chains x 3 families for the unordered solvers; family names spelled, depending on the input, as letters, as prefix-related names or as names equal up to leading zeros) and on multifurcating inputs (Schroeder shapes <=3x<=3 leaves; thorough also 4-leaf objects with one 3-ary polytomy) for the "
+                "(multifurcating inputs with object leaves named after ANOTHER species than the assigned one; incl. 5-leaf chains x 3 families for the unordered solvers; family names spelled, depending on the input, as letters, as prefix-related names or as names equal up to leading zeros) and on multifurcating inputs (Schroeder shapes <=3x<=3 leaves; thorough also 4-leaf objects with one 3-ary polytomy) for the "
                 "extended solvers, with a cost menu that includes sloss=0, all-zero and incoherent vectors; the structural predicate is evaluated "
                 "on the trees each solution refers to; on refinements the cost must also be finite under the REQUESTED unit costs (hgt = inf included); "
                 "a polytomy session slice solves one multifurcating input object again after in-place updates of its leaf data and costs; "
@@ -64,7 +64,7 @@ CLAIMED = {
         "category": "exploration",
         "text": "Bounded-exhaustive comparison of the ALL result with the complete optimal set of the reference models, key for key, "
                 "and of ANY with membership in it, for thl/exh (quick P4x3, thorough P4x4 + 5x<=3) and the four labelled solvers "
-                "(quick O3x2x3, U3x3x3, U4x2x2, 5-leaf chains x 1 species x 3 families; thorough O3x3x3, O4x3x2, U4x3x2, U4x2x4, U5x2x2) on a tie-rich coherent cost menu (free segmental losses included); quick also every tuple of subsequences of abcd (four families) on 3 object leaves and 5-leaf chains over {a, c, d, bd, abcd}; the 5-leaf comb on a species cherry over {ac, b, ab} (several root orders with different optima while transfers pay off).",
+                "(quick O3x2x3, U3x3x3, U4x2x2, 5-leaf chains x 1 species x 3 families; thorough O3x3x3, O4x3x2, U4x3x2, U4x2x4, U5x2x2) on a tie-rich coherent cost menu (free segmental losses included); the plain policy sequences run after a sibling input on the same tree objects was solved under another cost vector; quick also every tuple of subsequences of abcd (four families) on 3 object leaves and 5-leaf chains over {a, c, d, bd, abcd}; the 5-leaf comb on a species cherry over {ac, b, ab} (several root orders with different optima while transfers pay off).",
         "design_ref": "6 (C05)",
         "note": "Trusted: the reference models' optimal sets (brute force / Bellman, cross-validated). Coherent region only; "
                 "F-COHERENCE set witnesses replayed from known_findings.json.",
@@ -113,7 +113,7 @@ CLAIMED = {
                 "menu and thl / ext_spfs / base_spfs / superdtl / base_uspfs, the ALL result is compared with the result on every transformation of a "
                 "finite menu (single-node child swaps, mirror, 3 node renamings, 2 family renamings, outgroup on either side, repetition on the same "
                 "object and on a fresh one, scaling x2/x3, each unit cost +1); plus a fixed corpus solved in fresh interpreters under "
-                "PYTHONHASHSEED 0..3 with byte-identical canonical output. Further quick slices: child-order transformations on every 4-leaf labelled object over a species cherry (2 families); the input solved after a pass through its dictionary form under vectors with a zero or infinite unit cost. Further transformations: every other algorithm of the package run first on the same input object, the input built with the constructor's default costs after a sibling default-cost input had its prices raised in place, leaf dictionaries written in another order, "
+                "PYTHONHASHSEED 0..3 with byte-identical canonical output. Further quick slices: child-order transformations on every 4-leaf labelled object over a species cherry (2 families), on 3x3 leaves (unordered) and on 5-leaf chains over four families; raising the full-loss price on the 4-leaf comb x 3-leaf species comb with sloss > floss; the input solved after a pass through its dictionary form (also with species names that differ only by letter case) under vectors with a zero or infinite unit cost. Further transformations: every other algorithm of the package run first on the same input object, the input built with the constructor's default costs after a sibling default-cost input had its prices raised in place, leaf dictionaries written in another order, "
                 "children swapped in place on the live trees with a new LCA structure, prices doubled in place on the same input object.",
         "design_ref": "6 (C09), 7",
         "note": "No oracle needed (metamorphic relations). Object-address-dependent iteration order is not controllable; results compared as sets.",
@@ -138,7 +138,7 @@ CLAIMED = {
                 "(all subsets of <=3 object / <=2 species nodes on small trees, root and nested colours) and a float-infinite transfer cost; trees, "
                 "mappings, syntenies, flag, events, cost compared, and to_dict() of the copy reproduced verbatim on the listed fields; every object is "
                 "serialised a second time after an in-place edit of its trees and costs; multifurcating inputs (<= 4 / 5 leaves) for child order; "
-                "unordered labellings also typed as unsorted lists; a parent and child with the same colour; explicit zero costs; every text is read a second time after the first copy was edited in place; ordered inputs also with a prescribed root order (an entry for the root in leaf_syntenies); the dictionary handed to from_dict must come back unchanged; colours spelled upper-case, lower-case and with a leading '#'.",
+                "unordered labellings also typed as unsorted lists; a parent and child with the same colour; explicit zero costs; every text is read a second time after the first copy was edited in place; ordered inputs also with a prescribed root order (an entry for the root in leaf_syntenies); the dictionary handed to from_dict must come back unchanged; an object read back earlier in the process must still serialise as it did; an ordered solution with an empty synteny; colours spelled upper-case, lower-case and with a leading '#'.",
         "design_ref": "6 (C11)",
         "note": "Premise: unique node names. The embedded input's leaf_syntenies of an output is outside the listed fields and not compared.",
         "technique": TECH_E2,
@@ -190,7 +190,7 @@ CLAIMED = {
         "text": "Same reconciliations x every colouring of a menu (none, root, inner, every nested pair, explicit black inside / around a colour, leaf, two subtrees, three levels) with "
                 "labelling / naming scheme (underscores, backslashes, leaf names with an empty index) / orientation / top-down or bottom-up mapping dicts / wrap width (18, 7, 30) rotating: scanner for balanced braces, single picture, terminated "
                 "\\path/\\node statements, colours defined before use; colour of every event node and loss marker (layout and text) = nearest coloured "
-                "ancestor-or-self; escaped names; the reconciliation handed to the renderer must come back unchanged; synteny labels list the node's families (also multi-character families whose lists concatenate to the same text), omitted iff equal to the parent's, wrapped at the width of that drawing (no line longer, no more lines than greedy). Wrapper: all word lists "
+                "ancestor-or-self; escaped names; the reconciliation handed to the renderer must come back unchanged; synteny labels list the node's families (also multi-character families whose lists concatenate to the same text), omitted iff equal to the parent's, a family occurring twice in a synteny; wrapped at the width of that drawing (no line longer, no more lines than greedy). Wrapper: all word lists "
                 "of <=5 (6) words over 4 (5) lengths x widths 1..30 and syntenies of <=12 families against greedy wrapping.",
         "design_ref": "6 (C15)",
         "note": "Family names contain no backslash (a doubled backslash in a label is a TeX line break and would be ambiguous to un-wrap).",
